@@ -210,6 +210,8 @@ pub fn replay(input: &str, fixfile: Option<&str>, outdir: &str, nm: usize, seed:
     };
     let mism = mism.into_inner().unwrap();
     let samp = samp.into_inner().unwrap();
+    // the traces are re-executed with a fresh budget of hanging calls: those that hung before are known and not made again
+    crate::core::HANGS.store(0, std::sync::atomic::Ordering::Relaxed);
     write_traces("mismatch.ndjson", &mism);
     write_traces("sample.ndjson", &samp);
     {
